@@ -49,8 +49,31 @@ package common
 // earlier one saw (other goroutines - the heartbeat sender and the gossip receive loop both call
 // SetHeartbeat - may have run in between).
 //@ monitor (st *GuardianSetState) mu()
-//@   modifies GuardianSetState.lastHeartbeats, map[peer.ID]*gossipv1.Heartbeat, map[common.Address]map[peer.ID]*gossipv1.Heartbeat
+//@   modifies GuardianSetState.lastHeartbeats, GuardianSetState.current, map[peer.ID]*gossipv1.Heartbeat, map[common.Address]map[peer.ID]*gossipv1.Heartbeat
 //@   invariant [cap] hbTable(st)
+
+// the other writers of the state: the expiry sweep only removes entries, Set swaps the current set
+//@ func (st *GuardianSetState) Cleanup()
+//@   props C03
+//@   requires st != nil && hbTable(st)
+//@   ensures [cap] hbTable(st)
+//@   modifies map[peer.ID]*gossipv1.Heartbeat
+//@   loop [range st.lastHeartbeats]:
+//@     invariant [cap] hbTable(st)
+//@   loop [range v]:
+//@     invariant [cap] hbTable(st)
+
+//@ func (st *GuardianSetState) Set(set *GuardianSet)
+//@   props C03
+//@   requires st != nil && set != nil && hbTable(st)
+//@   ensures [current] st.current == set
+//@   ensures [table-untouched] hbTable(st) && unchanged("map[peer.ID]*gossipv1.Heartbeat") && unchanged("map[common.Address]map[peer.ID]*gossipv1.Heartbeat")
+//@   modifies GuardianSetState.current
+
+//@ func (st *GuardianSetState) Get() (g *GuardianSet)
+//@   props C03
+//@   requires st != nil
+//@   ensures [current] g == st.current
 
 //@ func (st *GuardianSetState) SetHeartbeat(addr common.Address, peerId peer.ID, hb *gossipv1.Heartbeat) (err error)
 //@   props C03
